@@ -72,6 +72,24 @@ def gen_outer(n):
     r = yield from gen_inner(n)
     return r
 
+def gen_finally_(n):
+    n = str(n)
+    try:
+        yield n
+        yield [n]
+    finally:
+        n = None
+
+def gen_catch(n):
+    n = str(n)
+    try:
+        yield n
+    except ValueError:
+        n = [n]
+        yield n
+    n = None
+    yield 1.5
+
 async def coro(a):
     r = await Susp()
     a = [a]
@@ -91,6 +109,8 @@ PROGRAMS: List[Tuple[str, str, bool]] = [
     ("mixed", "(M.top(1), list(M.gen_rebind(2)), M.rec(1))", False),
     ("two-generators-interleaved", "INTERLEAVE(M.gen_rebind(1), M.gen_inner(2))", False),
     ("generators-and-calls", "([list(M.gen_rebind(i)) for i in (1, 2)], list(M.gen_outer(7)), M.f(0))", False),
+    ("generator-thrown-into", "THROW(M.gen_catch(5))", False),
+    ("generator-closed-early", "(CLOSE(M.gen_finally_(3)), M.f(1))", False),
     ("coroutine-and-generator", "(DRIVE(M.coro(1)), list(M.gen_rebind('x')), DRIVE(M.coro([2])))", False),
 ]
 RATES = [None, 1, 2, 3, 10, 100]
@@ -168,6 +188,20 @@ def interleave(a: Any, b: Any) -> int:
     return n
 
 
+def throw_into(g: Any) -> Any:
+    """next, then an exception thrown in (the generator catches it and goes on), then run to exhaustion"""
+    out = [next(g)]
+    out.append(g.throw(ValueError("thrown")))
+    out += list(g)
+    return out
+
+
+def close_early(g: Any) -> Any:
+    v = next(g)
+    g.close()
+    return v
+
+
 def drive_all(c: Any) -> Any:
     try:
         c.send(None)
@@ -197,7 +231,7 @@ def run_once(M, files, expr: str, rate: Optional[int], fake: FakeRandom, prefix:
             with tracing.trace_calls(col, k, lambda code: code.co_filename in files, rate):
                 tracer = sys.getprofile()
                 try:
-                    eval(expr, {"M": M, "DRIVE": drive_all, "INTERLEAVE": interleave})
+                    eval(expr, {"M": M, "DRIVE": drive_all, "INTERLEAVE": interleave, "THROW": throw_into, "CLOSE": close_early})
                 except Exception:  # noqa: BLE001
                     pass
                 residue = len(tracer.traces)
